@@ -48,6 +48,7 @@ registry! {
     "C30" => c30,
     "C31" => c31,
     "C32" => c32,
+    "C33" => c33,
     "C34" => c34,
     "C35" => c35,
     "C36" => c36,
